@@ -484,8 +484,10 @@ structure BodySpec (z z' : Zip DepState) (call : Call) (L : List (Chunk × DepSt
   pmrem : z'.pm.rem = z.pm.rem
   nonempty : L ≠ []
 
-theorem iterBody_ok {n : Nat} {strict : Bool} {z z' : Zip DepState} {call : Call}
-    (h : iterBody n strict z = .ok (call, z')) : ∃ L, BodySpec z z' call L := by
+theorem iterBody_ok' {n : Nat} {strict : Bool} {z z' : Zip DepState} {call : Call}
+    (h : iterBody n strict z = .ok (call, z')) :
+    ∃ z0 zi, z.mapE (prepDep z.pm.buf.stop) = .ok z0 ∧ retrim n z.pm.buf.stop z0 = .ok zi ∧
+      BodySpec z z' call zi.toList := by
   unfold iterBody at h
   dsimp only at h
   split at h
@@ -516,7 +518,7 @@ theorem iterBody_ok {n : Nat} {strict : Bool} {z z' : Zip DepState} {call : Call
           have hends : ∀ p ∈ zi.toList, ∀ q ∈ zi.toList, p.1.stop = q.1.stop := by
             intro p hp q hq
             exact allEq_true r4 _ (List.mem_map.mpr ⟨p, hp, rfl⟩) _ (List.mem_map.mpr ⟨q, hq, rfl⟩)
-          refine ⟨zi.toList, rfl, rfl, by simp [Zip.toList], r3.trans d0, r1.trans c0, r2.trans s0,
+          refine ⟨z0, zi, hz0, hzi, rfl, rfl, by simp [Zip.toList], r3.trans d0, r1.trans c0, r2.trans s0,
             hends, r5 b0, r6 g0, m2, ?_, ?_, by simp [Zip.toList]⟩
           · intro T E H
             apply computeRange_ok hr
@@ -526,6 +528,11 @@ theorem iterBody_ok {n : Nat} {strict : Bool} {z z' : Zip DepState} {call : Call
           · show zi.pm.2.rem = z.pm.rem
             rw [retrim_pm_rem hzi]
             exact prepDep_pm_rem (inp := z0.pm.1) (s' := z0.pm.2) (Zip.mapE_ok hz0).2.1
+
+theorem iterBody_ok {n : Nat} {strict : Bool} {z z' : Zip DepState} {call : Call}
+    (h : iterBody n strict z = .ok (call, z')) : ∃ L, BodySpec z z' call L := by
+  obtain ⟨_, zi, _, _, b⟩ := iterBody_ok' h
+  exact ⟨zi.toList, b⟩
 
 theorem BodySpec.conserve {z z' : Zip DepState} {call : Call} {L : List (Chunk × DepState)}
     (b : BodySpec z z' call L) :
